@@ -237,10 +237,14 @@ func H_C04_insdel() {
 	// a level-1 node on each side so that level 1 is populated
 	lo, k, hi := int(vByte("lo", 0)), int(vByte("k", 0)), int(vByte("hi", 0))
 	vAssume(lo < k && k < hi)
-	s.Insert3(vIntItem(lo), CompareInt, nil, sb, 0, false, &s.Stats)
-	atomicLevelUp(s, 1)
-	s.Insert3(vIntItem(hi), CompareInt, nil, sb, 1, false, &s.Stats)
 	height := vBound("height")
+	top := int32(height)
+	if top < 1 {
+		top = 1
+	}
+	s.Insert3(vIntItem(lo), CompareInt, nil, sb, 0, false, &s.Stats)
+	atomicLevelUp(s, top)
+	s.Insert3(vIntItem(hi), CompareInt, nil, sb, int(top), false, &s.Stats)
 	var wg sync.WaitGroup
 	wg.Add(2)
 	vConcurrent(true)
@@ -287,3 +291,119 @@ func H_C04_insdel() {
 }
 
 func atomicLevelUp(s *Skiplist, l int32) { s.level = l }
+
+// H_C15_two: the scan runs while TWO other goroutines each delete one volatile node (DeleteNode, the by-node API
+// the garbage collector uses); the volatile keys are symbolic, so they may be adjacent, and a deleter may be
+// stalled between marking its node and unlinking it. Logical time stamps decide what the scan may return: an item
+// whose delete had returned before the scan started must not be returned; stable items must all be returned.
+func H_C15_two() {
+	s := New()
+	sb := s.MakeBuf()
+	nst := vBound("stable")
+	var stable [3]int
+	prev := -1
+	rf := vRandFn("setup")
+	for i := 0; i < nst; i++ {
+		k := int(vByte("s", i))
+		vAssume(k > prev)
+		prev = k
+		stable[i] = k
+		s.Insert2(vIntItem(k), CompareInt, nil, sb, rf, &s.Stats)
+	}
+	var vol [2]int
+	var vn [2]*Node
+	for j := 0; j < 2; j++ {
+		vol[j] = int(vByte("v", j))
+		for i := 0; i < nst; i++ {
+			vAssume(vol[j] != stable[i])
+		}
+	}
+	vAssume(vol[0] < vol[1])
+	for j := 0; j < 2; j++ {
+		vn[j], _ = s.Insert2(vIntItem(vol[j]), CompareInt, nil, sb, rf, &s.Stats)
+	}
+	seek := vChoice("seek", 0, 2) == 1
+	x := -1
+	if seek {
+		x = int(vByte("x", 0))
+	}
+	var log [8]int
+	nlog := 0
+	finished := false
+	scanStart := 0
+	var delDone [2]int
+	var delOK [2]bool
+	var wg sync.WaitGroup
+	wg.Add(3)
+	vConcurrent(true)
+	go func() {
+		vThread("R")
+		it := s.NewIterator(CompareInt, s.MakeBuf())
+		scanStart = vClock()
+		if seek {
+			it.Seek(vIntItem(x))
+		} else {
+			it.SeekFirst()
+		}
+		for it.Valid() {
+			if nlog >= 8 {
+				vFail("iterator does not terminate")
+			}
+			log[nlog] = IntFromItem(it.Get())
+			nlog++
+			it.Next()
+		}
+		finished = true
+		it.Close()
+		vThreadDone("R")
+		wg.Done()
+	}()
+	names := [2]string{"M0", "M1"}
+	for j := 0; j < 2; j++ {
+		go func(j int) {
+			vThread(names[j])
+			delOK[j] = s.DeleteNode(vn[j], CompareInt, s.MakeBuf(), &s.Stats)
+			delDone[j] = vClock()
+			vThreadDone(names[j])
+			wg.Done()
+		}(j)
+	}
+	wg.Wait()
+	vConcurrent(false)
+	vAssert(finished, "scan finished")
+	vAssert(delOK[0] && delOK[1], "each node is deleted successfully by its only deleter")
+	for i := 0; i < nlog; i++ {
+		k := log[i]
+		vAssert(k >= x, "returned item is >= the seek key")
+		known := vOr(k == vol[0], k == vol[1])
+		for j := 0; j < nst; j++ {
+			known = vOr(known, k == stable[j])
+		}
+		vAssert(known, "returned item was present at some moment during the scan")
+		for j := 0; j < 2; j++ {
+			if delDone[j] < scanStart {
+				vAssert(k != vol[j], "an item whose delete returned before the scan started is not returned")
+				vReach("delete-completed-before-scan")
+			}
+		}
+		if i > 0 {
+			vAssert(k > log[i-1], "iterator never goes backwards, no item repeats")
+		}
+	}
+	for j := 0; j < nst; j++ {
+		seen := false
+		for i := 0; i < nlog; i++ {
+			seen = vOr(seen, log[i] == stable[j])
+		}
+		vAssert(vOr(stable[j] < x, seen), "every item present for the whole scan (and >= the start) is returned")
+	}
+	if nlog > 0 && seek {
+		for j := 0; j < nst; j++ {
+			vAssert(vNot(vAnd(stable[j] >= x, stable[j] < log[0])), "Seek lands with no stable item between the target and the first result")
+		}
+	}
+	// after quiescence nothing deleted is visible any more
+	m := vWalk(s, CompareInt, "after the scan and both deletes")
+	vAssert(m.count == nst, "only the stable items remain")
+	vReach("c15-two-done")
+}
